@@ -40,6 +40,8 @@ class Stack:
 
 class Sys(e2.DevSys):
     place_until = 3.0
+    # also: in the iteration in which the datagrams sent by the timers of an instant are delivered, after the delivery
+    extra_positions = ("post+1",)
 
     def setup(self, cfg):
         self.sid = cfg["sid"]
@@ -306,7 +308,7 @@ def restrict(thorough, cfg, devs, p, k):
             return True
         # quick: second disturbance within 1.25 s of the first, process events only, one choice of delays
         return cfg["frac"] == 0.0 and p[0] - devs[-1][0] <= 1.25 and p[2][0] in (
-            "stop", "start", "crash-restart", "restart") and p[1] != "post"
+            "stop", "start", "crash-restart", "restart") and p[1] == "pre"
     return False
 
 
